@@ -69,6 +69,8 @@ pub enum Action {
     /// create a new branch from `src` forking `back` blocks below its tip and mine `n`
     /// blocks on it; the new branch gets the next free index
     Fork { src: usize, back: u64, n: u64 },
+    /// like `Fork`, but the new branch is not made heavier than its source (nobody follows it)
+    SideFork { src: usize, back: u64, n: u64 },
     /// peer starts following `branch` (its view jumps to tip - lag)
     SwitchBranch { peer: usize, branch: usize },
     Connect { peer: usize },
